@@ -1049,6 +1049,12 @@ class Interp:
                     self.assign(t, x, env)
         elif isinstance(target, ast.Subscript) and isinstance(target.slice, ast.Slice):
             base = self.eval(target.value, env)
+            if isinstance(base, Ext) and hasattr(base, "sym_setslice"):
+                sl = target.slice
+                if sl.lower is not None or sl.upper is not None or sl.step is not None:
+                    raise Undecided(f"partial slice assignment on {type(base).__name__}")
+                base.sym_setslice(self, list(self.iterate(v)))
+                return
             if not isinstance(base, list):
                 raise Undecided(f"slice assignment on {type(base).__name__}")
             sl = target.slice
@@ -1378,6 +1384,10 @@ class Interp:
                 raise Undecided("ordering comparison of sequences with mixed element types")
         if isinstance(l, (set, frozenset)) and isinstance(r, (set, frozenset)):
             return {"<": l < r, "<=": l <= r, ">": l > r, ">=": l >= r}[sym]
+        if isinstance(l, Ext) and hasattr(l, "sym_compare"):
+            return l.sym_compare(self, sym, r)
+        if isinstance(r, Ext) and hasattr(r, "sym_compare"):
+            return r.sym_compare(self, {"<": ">", "<=": ">=", ">": "<", ">=": "<="}[sym], l)
         raise Undecided(f"ordering comparison of {l!r} and {r!r}")
 
     def equal(self, l, r):
